@@ -459,7 +459,15 @@ func checkC06(c c06Case) *ev.Failure {
 		if err != nil {
 			return ev.Failf("hash-error/original", "original graph: %v", err)
 		}
-		// determinism: a second computation from scratch
+		// determinism: a second computation from scratch, after other packages were hashed in the same process, one of
+		// them refused half-way (a module whose binary index is out of range): no computation leaves anything behind
+		for _, at := range []int{0, len(c.Graph.Mods) - 1} {
+			broken := c.Graph.Clone()
+			broken.Mods[at].Binary = uint32(len(broken.Bins) + 3)
+			if _, err := hashes(broken); err == nil {
+				return ev.Failf("hash-error/out-of-range-binary-accepted", "module %s with binary index %d of %d is hashed without error", broken.Mods[at].Name, broken.Mods[at].Binary, len(broken.Bins))
+			}
+		}
 		again, _ := hashes(c.Graph.Clone())
 		for n, h := range base {
 			if again[n] != h {
